@@ -506,7 +506,7 @@ theorem C18_interpolation_failure_no_effect (L : Limits) (env : PEnv) (orc : Eva
     (runOracle orcl (processMessageL L env orc expr md name st) 0 []).1 = ({ st with error := true }, md) ∧
     (∀ x ∈ (runOracle orcl (processMessageL L env orc expr md name st) 0 []).2,
       (((∃ nm, x.1 = .openRd d nm) ∨ (∃ fd, x.1 = .read fd) ∨ ∃ fd, x.1 = .close fd) ∨ Proofs.EvalCallOf expr x.1) ∧
-        x.1.mutating = false ∧ (x.1 = .fork → Proofs.hasCommand expr = true)) ∧
+        x.1.mutating = false ∧ (x.1.isFork = true → Proofs.hasCommand expr = true)) ∧
     ∃ E T, (runOracle orcl (processMessageL L env orc expr md name st) 0 []).2 =
         (runOracle orcl (messageParsePL L d md.path name content) 0 []).2 ++ E ++ T ∧
         (∀ x ∈ E, Proofs.EvalCallOf expr x.1) ∧ ∀ x ∈ T, ∃ fd, x.1 = .close fd := by
@@ -515,7 +515,7 @@ theorem C18_interpolation_failure_no_effect (L : Limits) (env : PEnv) (orc : Eva
   subst hev
   obtain ⟨h1, h2, h3⟩ := processMessageL_interp_error_run L env orc expr md name st d content p n mf est hd hf hp hn hmf orcl hrun
       (matchesInterpolateL_none_of_entry L (Proofs.msgEnv env orc p) est.ml _ msgs0 i mh hi hfail)
-  exact ⟨h1, fun x hx => ⟨(h2 x hx).1, (h2 x hx).2, fun hfk => Proofs.ParseEvalCall.fork (hfk ▸ (h2 x hx).1)⟩, h3⟩
+  exact ⟨h1, fun x hx => ⟨(h2 x hx).1, (h2 x hx).2, fun hfk => Proofs.ParseEvalCall.fork' (h2 x hx).1 hfk⟩, h3⟩
 
 /-- `C18_interpolation_failure_no_effect` for a rule tree without `command`, `isdirectory` and file-time `date` conditions
 (`Proofs.asksFree`), in terms of the pure evaluator `evalL`: every call is `openat(O_RDONLY)` / `read` / `close`,
@@ -536,7 +536,7 @@ theorem C18_interpolation_failure_no_effect_pure (L : Limits) (env : PEnv) (orc 
     (runOracle orcl (processMessageL L env orc expr md name st) 0 []).1 = ({ st with error := true }, md) ∧
     (∀ x ∈ (runOracle orcl (processMessageL L env orc expr md name st) 0 []).2,
       ((∃ nm, x.1 = .openRd d nm) ∨ (∃ fd, x.1 = .read fd) ∨ ∃ fd, x.1 = .close fd) ∧
-        x.1.mutating = false ∧ x.1 ≠ .fork) ∧
+        x.1.mutating = false ∧ x.1.isFork = false) ∧
     ∃ T, (runOracle orcl (processMessageL L env orc expr md name st) 0 []).2 =
         (runOracle orcl (messageParsePL L d md.path name content) 0 []).2 ++ T ∧ ∀ x ∈ T, ∃ fd, x.1 = .close fd := by
   cases h : evalL L (Proofs.msgEnv env orc p) (parseMessage content) expr 0 (parseMessage content) { ml := [], flags := mf } with
